@@ -284,7 +284,10 @@ def do_new(env, cid, rid, fresh=False):
 def _oracle_child(case_cat, defines, query):
     env = Env({"catalogue": case_cat})
     for d in defines:
-        env.define(d)
+        try:
+            env.define(d)
+        except Exception:
+            pass  # as in the run child: a definition the library rejects leaves the class undefined
     kind = query[0]
     if kind == "new":
         _, out = do_new(env, query[1], query[2])
@@ -1063,3 +1066,6 @@ def post_checks(tier, verif_seed):
 
 
 STATE_MEASURE = 'distinct (set of classes asked so far, class asked now) pairs'
+
+
+EXPECTED_STATS = {"C06": ["oracle_forks", "observations"]}
